@@ -57,7 +57,7 @@ func Load(dir string, patterns []string, overlay map[string]string, tags string)
 		Dir:        dir,
 		Overlay:    ov,
 		BuildFlags: []string{"-tags=" + tags},
-		Env:        append(os.Environ(), "GOFLAGS=-mod=mod", "GOPROXY=off", "GOSUMDB=off", "GOTOOLCHAIN=local"),
+		Env:        append(os.Environ(), "GOFLAGS=-mod=readonly", "GOPROXY=off", "GOSUMDB=off", "GOTOOLCHAIN=local"),
 	}
 	initial, err := packages.Load(cfg, patterns...)
 	if err != nil {
